@@ -65,6 +65,7 @@ structure LayoutOk2 (L : Layout) : Prop where
   f6 : ∀ h b, L.cidx h b = h + b
   f7 : ∀ n, L.drain n = n
   f8 : 0 < L.hdrLen
+  f9 : L.cl.2 ≤ L.hdrLen ∧ L.hl.2 ≤ L.hdrLen ∧ L.ctl.2 ≤ L.hdrLen
 
 theorem layoutOk2 (id : LayId) : LayoutOk2 (layoutOf id) := by
   cases id <;> constructor <;> simp only [layoutOf] <;> intros <;> (try frame_len_defs) <;> (try frame_consts_defs) <;>
